@@ -281,6 +281,20 @@ def run_core(scn, want=("c01", "c02", "c03", "c04", "c05", "c06")):
         return StreamMonitor(sim, xp.cmd, ["we", "addr"], on)
     for i, xp in enumerate(tb.xports):
         sim.add_agent("sys", xmon(i, xp))
+    # write-data strobes at the crossbar that found no valid data on a clock-crossed port (the crossing delivered
+    # the command before its data)
+    blind = [0] * len(tb.xports)
+    cdc_x = [(i, sim.index(xp.wdata.ready), sim.index(xp.wdata.valid)) for i, (xp, pc) in enumerate(zip(tb.xports, core["ports"]))
+             if pc.get("cd", "sys") != "sys" and pc.get("mode", "both") != "read"]
+    if cdc_x:
+        def blindmon(sim):
+            S_ = sim.S
+            for i, ir, iv in cdc_x:
+                if S_[ir] and not S_[iv]:
+                    blind[i] += 1
+        sim.add_agent("sys", blindmon)
+        upc = [bool(pc.get("data_width")) and pc["data_width"] < nb * 8 for pc in core["ports"]]
+        viol.extra = lambda: {"blind_strobes": list(blind), "upconverted": upc[0]}
 
     # monitors: cmd wait time (first offer -> accept), abstract states
     fs = tb.fsm_state_indices()
@@ -322,7 +336,7 @@ def run_core(scn, want=("c01", "c02", "c03", "c04", "c05", "c06")):
     drain_budget = scn.get("limits", {}).get("drain", 3000)
     sample_every = 7
     cyc = 0
-    quiet = 0
+    quiet = None
     until0 = scn.get("limits", {}).get("until_port0", 0)
     while cyc < cap:
         # cmd wait measurement (pre-edge view of what masters drive)
@@ -358,11 +372,12 @@ def run_core(scn, want=("c01", "c02", "c03", "c04", "c05", "c06")):
                 if (m.pend and cyc - m.pend[0] > bound) or (m.wpend and cyc - m.wpend[0] > bound):
                     waits["resp"] = max(waits["resp"], bound + 1)
         if all(m.idle() for m in masters) or (until0 and masters[0].idle() and cyc >= until0):
-            quiet += 1
-            if quiet > scn.get("limits", {}).get("tail", 40) and cyc >= scn.get("limits", {}).get("min_cycles", 0):
+            if quiet is None:
+                quiet = cyc
+            elif cyc - quiet > scn.get("limits", {}).get("tail", 40) and cyc >= scn.get("limits", {}).get("min_cycles", 0):
                 break
         else:
-            quiet = 0
+            quiet = None
     idle = all(m.idle() for m in masters)
     if bound is not None and waits["resp"] > bound:
         viol.add("c05.wait_bound", "an accepted command waited %d cycles for its write-data strobe / read data (bound %d for this configuration)"
